@@ -10,14 +10,25 @@ PLAN = dict(
     ),
     rule=("cases are distinfo documents generated from a model: (a) canonical texts (RCS Id line or the "
           "unexpanded $NetBSD$, blank line, 0-5 distfiles each with a non-empty subset/order of the six "
-          "algorithms and a size line up to u64::MAX, then 0-4 patches) which must satisfy "
+          "algorithms and a size line up to u64::MAX, then 0-4 patches; every 40th document is large: 17-300 "
+          "files, mostly 21-80, split anywhere between the kinds) which must satisfy "
           "from_bytes(T).as_bytes() == T byte for byte, also piecewise through Entry::as_bytes; (b) documents "
-          "assembled through Distinfo::new/set_rcsid/insert in an interleaved insertion order, whose "
-          "as_bytes() must parse back to the same RCS Id, the same names in the same order per kind, the "
-          "same checksums in order and the same sizes. Names are 1-12 bytes (plus optional DIST_SUBDIR "
-          "components) from a pool weighted to 0x85, 0xA0, lone 0xE9, C3 A0, C3 85, 0xFF, 0x01, 0x7F, '(' ')' "
-          "'='. Non-trivial = the document has at least one file name with a byte >= 0x80; distinct = distinct "
-          "document texts by 64-bit fingerprint."),
+          "assembled through the API: Distinfo::new() or, in a quarter of the cases, from_bytes() of a canonical "
+          "text, then insert() of 1-8 entries (every 40th: up to 300) in one of seven orders (random "
+          "interleaving, all patches then all distfiles, distfiles then patches, alternating, blocks of 1-9, a "
+          "lone patch among distfiles, a lone distfile among patches), set_rcsid before, between or after the "
+          "insertions; the object (distfiles()/patchfiles()/get_*/rcsid()) and the parse of its as_bytes() "
+          "must show the same RCS Id, the same names in order of arrival per kind, the same checksums in order "
+          "and the same sizes - also at a random point midway in a fifth of the cases. Names are 1-12 bytes "
+          "(plus optional DIST_SUBDIR components) from a pool weighted to 0x85, 0xA0, lone 0xE9, C3 A0, C3 85, "
+          "0xFF, 0x01, 0x7F, '(' ')' '='; about a fifth are assembled from the clauses of the classification "
+          "rule (heads patch-/patch-local-/emul-<os>-patch-/emul-<os>-patch-local-/near misses/upper case x "
+          "bodies x stacked tails .orig/.rej/~/.tar.*/near misses, or free mixtures of these fragments and of "
+          "line-syntax tokens such as Size, SHA1, $NetBSD$, #), an eighth are derived from a name already in "
+          "the document (directories put in front or removed so that one name is a trailing sub-path of "
+          "another, a shared prefix, letter case of one letter, one invalid-UTF-8 byte exchanged for another), "
+          "some are 30-200 bytes long; RCS Ids up to 400 bytes. Non-trivial = the document has at least one "
+          "file name with a byte >= 0x80; distinct = distinct document texts by 64-bit fingerprint."),
     assumptions=[
         "the canonical rendering in harness/src/oracle/distinfo.rs is the layout the statement describes "
         "('ALG (name) = hash', 'Size (name) = N bytes', single blanks, LF line ends)",
@@ -28,11 +39,15 @@ PLAN = dict(
     level_text=("Exploration: ~4.8x10^5 (quick) to ~4.8x10^6 (thorough) generated documents are driven through "
                 "Distinfo::from_bytes/as_bytes/insert/set_rcsid and compared byte for byte or field for field with "
                 "the model they were generated from; held means held on the documents observed, which reach every "
-                "dangerous name-byte class, non-UTF-8 and unexpanded RCS Ids, DIST_SUBDIR names and u64::MAX sizes."),
+                "dangerous name-byte class, non-UTF-8 and unexpanded RCS Ids, DIST_SUBDIR names, u64::MAX sizes, "
+                "documents of more than 20 files in both directions and in each of the seven insertion orders, "
+                "names sharing trailing components in both orders of appearance, and the combinations of the "
+                "classification rule's clauses."),
     level_note="trusts the generator's model and rendering; Miri (thorough) only vouches for the code the mini workload reached",
     not_explored=[
         "names containing white space, 0x0B or 0x0C, empty names, names with '//' , '/./', '.' or '..' components, leading or trailing '/' (PathBuf normalisation, known finding K2 - only in C11's alias workload)",
-        "names whose patch/distfile kind depends on the reading of the rule ('dir/patch-aa', 'emul-patch-x', 'patch-x.tar')",
+        "names whose patch/distfile kind depends on the reading of the rule ('dir/patch-aa', 'emul-patch-x', 'patch-x.tar'); in particular two names that share their trailing components always have the same kind here (a differing kind would need exactly such a name)",
+        "documents of more than 300 files; insert() of a name that is already present (replacement); removing entries; set_rcsid called more than once",
         "documents outside canonical layout in the parse-write direction (C11 covers their parsing)",
         "empty or upper-case hashes, two lines of one algorithm for a file, API entries with no line at all, patch entries carrying a size",
         "RCS Ids containing LF; set_rcsid with a string that does not start with '$NetBSD: '",
